@@ -9,7 +9,7 @@ import z3
 
 from pyvc import ops, specfn
 from pyvc.interp import LoopSpec
-from pyvc.sym import SSeq, SBool, SPy, PyVal, SeqI, IntS, mk_bool, mk_int, to_pyval
+from pyvc.sym import SSeq, SBool, SPy, PyVal, SeqI, SeqSeqI, IntS, mk_bool, mk_int, to_pyval
 from pyvc.unit import Contract, Case
 from contracts import objs
 from contracts import binmodel as BM
@@ -79,6 +79,129 @@ def ibv_cases(E, ctx):
 
 
 def register(reg):
+    register_exist(reg)
+    register_nodes(reg)
     reg.add("binary_branches", Contract(MOD + ":if_branch_valid", ["branch", "root_hash", "key", "value"], ibv_cases,
                                         setup=ibv_setup, props=("C13",), callee=False,
                                         loops={0: LoopSpec(lambda E, fr, i: [], fresh={"node": "unbound"})}))
+
+
+# ---------------------------------------------------------------------------------------------------
+# check_if_branch_exist / _check_if_branch_exist: the function against its specification bexists
+#
+#   bexists(h, p)   the trie under h has a key that starts with the bit string p:
+#       blank: no;   leaf: p is empty;   kv(path, c): p is empty, or p is a proper prefix of path, or path is a prefix
+#       of p and bexists(c, rest);   branch(l, r): p is empty, or bexists(l / r chosen by the first bit, rest)
+# (uninterpreted, unfolded at the node visited).  That bexists(h, p) <=> exists k. blk(h, k) != None and p is a prefix
+# of k is a lemma about the two definitions on canonical tries (every non-blank node holds a key) -- not a pyvc
+# obligation.
+
+bexists = z3.Function("bexists", SeqI, SeqI, z3.BoolSort())
+
+
+def unfold_bexists(E, h, p):
+    P = BM.parts_of(E, h)
+    lp, lpath = z3.Length(p), z3.Length(P.path)
+    kv = z3.If(lp == 0, True,
+               z3.If(lp < lpath, z3.PrefixOf(p, P.path),
+                     z3.And(z3.PrefixOf(P.path, p), bexists(P.child, BM.tail(p, lpath)))))
+    br = z3.If(lp == 0, True, z3.If(p[0] == 0, bexists(P.left, BM.tail(p, 1)), bexists(P.right, BM.tail(p, 1))))
+    body = z3.If(h == BM.blank_hash(E), False,
+                 z3.If(P.is_leaf, lp == 0, z3.If(P.is_kv, kv, z3.If(P.is_branch, br, False))))
+    E.assume(mk_bool(bexists(h, p) == body))
+
+
+def cbe_setup(E):
+    from contracts.binary_c import bits
+    E.ghost["adt_nodes"] = True
+    db = E.fresh_dict("db", "bytes", "bytes")
+    db.hooks = BM.BinDbInvariant()
+    return {"db": db, "node_hash": objs.hash32(E, "node_hash"), "key_prefix": bits(E, "key_prefix")}
+
+
+def cbe_requires(E, ctx):
+    from contracts.binaries_c import allbit_of
+    side = []
+    ok = allbit_of(ops.seq_term_as(ctx.key_prefix, "int"), side)
+    for f in side:
+        E.assume(mk_bool(f))
+    return [("hash-is-32-bytes", mk_bool(z3.Length(ops.seq_term_as(ctx.node_hash, "int")) == 32)),
+            ("prefix-is-a-bit-string", mk_bool(ok))]
+
+
+def cbe_cases(E, ctx):
+    h = ops.seq_term_as(ctx.node_hash, "int")
+    p = ops.seq_term_as(ctx.key_prefix, "int")
+    unfold_bexists(E, h, p)
+    from contracts import seqlemmas as SL
+    P = BM.parts_of(E, h)
+    SL.use(E, "prefix_is_slice", P.path, p)
+    SL.use(E, "prefix_is_slice", p, P.path)
+    return [Case("answer", returns=lambda: mk_bool(bexists(h, p))),
+            Case("missing-node", raises=KeyError)]
+
+
+def cbe_api_setup(E):
+    E.ghost["adt_nodes"] = True
+    db = E.fresh_dict("db", "bytes", "bytes")
+    db.hooks = BM.BinDbInvariant()
+    return {"db": db, "root_hash": objs.hash32(E, "root_hash"), "key_prefix": E.fresh_seq("key_prefix", "bytes")}
+
+
+def cbe_api_cases(E, ctx):
+    from contracts.binary_c import key_bits
+    root = ops.seq_term_as(ctx.root_hash, "int")
+    kb = key_bits(E, ctx.key_prefix).t
+    return [Case("answer", returns=lambda: mk_bool(bexists(root, kb))),
+            Case("missing-node", raises=KeyError)]
+
+
+def register_exist(reg):
+    g = "binary_branches"
+    reg.add(g, Contract(MOD + ":_check_if_branch_exist", ["db", "node_hash", "key_prefix"], cbe_cases, setup=cbe_setup,
+                        requires=cbe_requires, props=("C13",)))
+    reg.add(g, Contract(MOD + ":check_if_branch_exist", ["db", "root_hash", "key_prefix"], cbe_api_cases,
+                        setup=cbe_api_setup, props=("C13",), callee=False))
+
+
+# ---------------------------------------------------------------------------------------------------
+# get_trie_nodes / _get_trie_nodes: the function against its specification bnodes
+#
+#   bnodes(H, h)  the bodies of the nodes reachable from h that are available in H, parents first, left before right:
+#       h not in H: ();  kv: (body,) ++ bnodes(child);  branch: (body,) ++ bnodes(left) ++ bnodes(right);  leaf: (body,)
+
+bnodes = z3.Function("bnodes", z3.ArraySort(SeqI, z3.BoolSort()), SeqI, SeqSeqI)
+
+
+def unfold_bnodes(E, H, h):
+    P = BM.parts_of(E, h)
+    me = z3.Unit(BM.unk(h))
+    body = z3.If(z3.Select(H, h),
+                 z3.If(P.is_kv, z3.Concat(me, bnodes(H, P.child)),
+                       z3.If(P.is_branch, z3.Concat(me, bnodes(H, P.left), bnodes(H, P.right)), me)),
+                 z3.Empty(SeqSeqI))
+    E.assume(mk_bool(bnodes(H, h) == body))
+
+
+def gtn_setup(E):
+    E.ghost["adt_nodes"] = True
+    db = E.fresh_dict("db", "bytes", "bytes")
+    db.hooks = BM.BinDbInvariant()
+    return {"db": db, "node_hash": objs.hash32(E, "node_hash")}
+
+
+def gtn_cases(E, ctx):
+    H = ctx.old_has(ctx.db)
+    h = ops.seq_term_as(ctx.node_hash, "int")
+    unfold_bnodes(E, H, h)
+    return [Case("nodes", returns=lambda: SSeq(bnodes(H, h), "tuple", "bytes"))]
+
+
+def gtn_requires(E, ctx):
+    return [("hash-is-32-bytes", mk_bool(z3.Length(ops.seq_term_as(ctx.node_hash, "int")) == 32))]
+
+
+def register_nodes(reg):
+    g = "binary_branches"
+    reg.add(g, Contract(MOD + ":get_trie_nodes", ["db", "node_hash"], gtn_cases, setup=gtn_setup, requires=gtn_requires,
+                        props=("C13",)))
